@@ -304,9 +304,30 @@ def formulas(max_leaves):
 def cases(draw, max_leaves=12):
     # a pool of subformulas; the final formula combines pool members so that equal subformulas recur
     pool = draw(st.lists(formulas(max_leaves // 2), min_size=1, max_size=3))
+    # structurally RELATED variants recur too (same operands in another order or under another connective): this is
+    # what distinguishes a sound sub-formula cache from one keyed too coarsely
+    for f0 in list(pool):
+        if isinstance(f0, list):
+            if f0[0] in ("if", "iff"):
+                pool.append([f0[0], f0[2], f0[1]])
+                pool.append(["iff" if f0[0] == "if" else "if", f0[1], f0[2]])
+            elif f0[0] in ("and", "or") and len(f0[1]) >= 2:
+                pool.append([f0[0], list(reversed(f0[1]))])
+                pool.append(["or" if f0[0] == "and" else "and", list(f0[1])])
+            elif f0[0] == "not":
+                pool.append(f0[1])
     pick = st.sampled_from(pool)
-    top = draw(st.sampled_from(["one", "and", "or", "iff", "if", "not-and"]))
-    if top == "one":
+    top = draw(st.sampled_from(["one", "and", "or", "iff", "if", "not-and", "converse", "converse"]))
+    if top == "converse":
+        a, b = draw(pick), draw(st.one_of(pick, formulas(3)))
+        op = draw(st.sampled_from(["if", "if", "iff"]))
+        x, y = [op, a, b], [op, b, a]
+        if draw(st.booleans()):
+            y = ["not", y]
+        f = [draw(st.sampled_from(["and", "or", "iff2"])), [x, y] + draw(st.lists(pick, min_size=0, max_size=1))]
+        if f[0] == "iff2":
+            f = ["iff", x, y]
+    elif top == "one":
         f = draw(formulas(max_leaves))
     elif top in ("and", "or"):
         f = [top, draw(st.lists(st.one_of(pick, formulas(4)), min_size=0, max_size=3))]
